@@ -23,7 +23,7 @@ EXPLANATION = (
     'defaults go through apply; (e) Enum extension validates every value '
     'against the base, Schema compatibility requires equal key sets.  The '
     'containment between acceptance sets itself is not decided.')
-FLOORS = {'C04.a': 9, 'C04.b': 6, 'C04.c': 6, 'C04.d': 1, 'C04.e': 2, 'C04.f': 4, 'C04.g': 2, 'C04.h': 2}
+FLOORS = {'C04.r': 40, 'C04.a': 9, 'C04.b': 6, 'C04.c': 6, 'C04.d': 1, 'C04.e': 2, 'C04.f': 4, 'C04.g': 2, 'C04.h': 2}
 FILES = ['pyglove/core/typing/value_specs.py', 'pyglove/core/typing/class_schema.py',
          'pyglove/core/typing/key_specs.py', 'pyglove/core/typing/type_conversion.py']
 VS = 'pyglove.core.typing.value_specs.'
@@ -558,6 +558,8 @@ def rule_h(ctx):
 
 def run(ctx):
   ctx.consult(*FILES)
+  from sa.rejections import REJECTIONS as _REJ
+  S.rejection_census_obligations(ctx, 'C04.r', _REJ['C04'], floor=40)
   rule_a(ctx)
   rule_b(ctx)
   rule_c(ctx)
